@@ -113,6 +113,10 @@ Definition c17_code (c : c17case) : N :=
       else if negb (list_eqb stored_eqb s1 s2 && assoc_eq N.eqb N.eqb jt1 jt2 && list_eqb pair_eqb r1 r2) then 33
       else if negb (forallb (fun e => existsb (pair_eqb e) e1) e2) then 34
       else if negb (forallb (fun e => jump_err_idx (snd e) || existsb (pair_eqb e) e2) e1) then 35
+      (* 40: a thread retired with a gas account above the limit (the implementation's own retirement log) and no
+         GasLimitExceeded error at that instruction in the error list -- in either mode: it is not a jump-target error *)
+      else if negb (forallb (fun p => negb (gas_limit (k_lim c) <? snd p) || existsb (pair_eqb (fst p, 9)) e1) r1) then 40
+      else if negb (forallb (fun p => negb (gas_limit (k_lim c) <? snd p) || existsb (pair_eqb (fst p, 9)) e2) r2) then 40
       else if (xa_class (k_astrict c) =? 0)
               && negb ((xa_class (k_aperm c) =? 0) && list_eqb entry_eqb (xa_layout (k_astrict c)) (xa_layout (k_aperm c))) then 36
       else if (xa_class (k_astrict c) =? 2) || (xa_class (k_aperm c) =? 2) then 37
